@@ -887,6 +887,8 @@ pub fn build_ir_cached(
 ) -> Result<Ir, SimulatorError> {
     // Cache hit: reuse ProtoModule, just instantiate with fresh buffers
     if let Some(entry) = cache.entries.get(&top) {
+        #[cfg(veryl_verif)]
+        crate::backend::inst::verif_cache_trace(format_args!("proto-hit top={top}"));
         let module = entry.proto.instantiate();
         return Ok(Ir::from_module(module, config, entry.token));
     }
